@@ -471,20 +471,20 @@ static uint64_t vx_scan_int(const char* s, int base, _Bool* neg, _Bool* ovf, uin
   *endi = (i == start) ? 0 : i;
   return v;
 }
-int64_t strtoll(const char* s, char** end, int base) {
+long long strtoll(const char* s, char** end, int base) {
   _Bool neg, ovf; uint64_t e; uint64_t v = vx_scan_int(s, base, &neg, &ovf, &e);
   if (end) *end = (char*)s + e;
   if (ovf || (!neg && v > 0x7fffffffffffffffUL) || (neg && v > 0x8000000000000000UL)) { vx_errno = 34; return neg ? (int64_t)0x8000000000000000UL : 0x7fffffffffffffffL; }
   return neg ? (int64_t)(0 - v) : (int64_t)v;
 }
-int64_t strtol(const char* s, char** end, int base) { return strtoll(s, end, base); }
-uint64_t strtoull(const char* s, char** end, int base) {
+long strtol(const char* s, char** end, int base) { return (long)strtoll(s, end, base); }
+unsigned long long strtoull(const char* s, char** end, int base) {
   _Bool neg, ovf; uint64_t e; uint64_t v = vx_scan_int(s, base, &neg, &ovf, &e);
   if (end) *end = (char*)s + e;
   if (ovf) { vx_errno = 34; return 0xffffffffffffffffUL; }
   return neg ? 0 - v : v;
 }
-uint64_t strtoul(const char* s, char** end, int base) { return strtoull(s, end, base); }
+unsigned long strtoul(const char* s, char** end, int base) { return (unsigned long)strtoull(s, end, base); }
 /* strtod: the accepted prefix is computed syntactically (decimal forms, inf/nan excluded by assertion);
  * the value is an uninterpreted function of the accepted text, constrained only in sign and zero-ness */
 double __VERIFIER_nondet_double(void);
